@@ -88,7 +88,7 @@ def decode(b, depth=0):
     """canonical dict of the PDU in b; Reject (with reason code, PDU type and nesting depth) otherwise"""
     b = bytes(b)
     if len(b) < 2:
-        e = Reject("short", "short-header", "?")
+        e = Reject("short", "short-header", "aggregated-pdu" if depth else "frame")
         e.depth = depth
         raise e
     try:
